@@ -511,3 +511,68 @@ PLANS['C15'] = {
     'note': 'trusted: refbin.py encoder for r-bin files, hand-written XML for r-xml; Font=100 (Enum.Font.Unknown) is a listed known finding',
     'technique': 'four-path differential monitor over the database\'s migrating descriptors (exhaustive over legacy values in thorough)',
 }
+
+
+def _c05make(args):
+    import sys
+    sys.path.insert(0, os.path.join(core.VERIF, 'lib'))
+    from monitors import c05
+    return c05.make_files(args)
+
+
+def _c05(m, tier, seed, rundir, extra):
+    # writer direction: independent parser + decoder over recorded rbx_xml outputs
+    count = int(extra.get('count', 1600 if tier == 'quick' else 60000))
+    res = core.run_sharded('c02', ['--seed', seed, '--count', count], SH, rundir,
+                           per_shard_args=lambda i: ['--caselog', os.path.join(rundir, f'cases-{i}.jsonl')])
+    for rc, summ, err in res:
+        if summ is None:
+            m.inconclusive.append(f'c02 producer exited {rc}: {err[-300:]}')
+    paths = [os.path.join(rundir, f'cases-{i}.jsonl') for i in range(SH) if os.path.exists(os.path.join(rundir, f'cases-{i}.jsonl'))]
+    for s_ in _monitor_pool('c05', paths):
+        for k in list(s_['coverage']):
+            s_['coverage']['writer.' + k] = s_['coverage'].pop(k)
+        m.add_summary(s_)
+    for p in paths:
+        os.remove(p)
+    # reader direction: documents from the independent generator through the real reader
+    rcount = int(extra.get('rcount', 800 if tier == 'quick' else 40000))
+    res = core.run_sharded('foreigngen', ['--seed', seed, '--count', rcount, '--fmt', 'xml'], SH, os.path.join(rundir, 'gen'),
+                           per_shard_args=lambda i: ['--cases', os.path.join(rundir, f'logical-{i}.jsonl')])
+    for rc, summ, err in res:
+        if summ is None:
+            m.inconclusive.append(f'foreigngen exited {rc}: {err[-300:]}')
+    jobs = [(os.path.join(rundir, f'logical-{i}.jsonl'), os.path.join(rundir, f'files-{i}.jsonl'), seed) for i in range(SH)]
+    made = sum(_pool(_c05make, jobs))
+    import concurrent.futures as cf
+    with cf.ThreadPoolExecutor(max_workers=core.NCPU) as ex:
+        futs = [ex.submit(core.run_vh, ['readcmp', '--prop', 'C05', '--in', os.path.join(rundir, f'files-{i}.jsonl')], os.path.join(rundir, f'readcmp-{i}.json')) for i in range(SH)]
+        outs = [f.result() for f in futs]
+    for rc, summ, err in outs:
+        if summ is not None:
+            for k in list(summ['coverage']):
+                summ['coverage']['reader.' + k] = summ['coverage'].pop(k)
+    m.add_results(outs, 'readcmp xml')
+    m.extra['reader_direction_documents'] = made
+    for i in range(SH):
+        for f in (f'logical-{i}.jsonl', f'files-{i}.jsonl'):
+            p = os.path.join(rundir, f)
+            if os.path.exists(p):
+                os.remove(p)
+
+
+PLANS['C05'] = {
+    'level': 'exploration',
+    'rule': ('writer direction: every document rbx_xml writes for the C02 workload (three option pairings) is parsed by expat (an independent XML parser) and decoded by refxml.py, written from docs/xml.md: '
+             'version 4, Item class + file-unique non-null referent, exactly one Properties per Item, documented element name and layout per type, null for empty refs, every SharedString use defined in the one '
+             'dictionary; decoded values must equal the statement-derived expectation (an independent parser normalises line ends, so a raw CR in text shows here). '
+             'reader direction: logical DOMs are rendered by refxml.encode varying declaration, xmlns attributes, Meta/External, RBX-uuid referents, property order, whitespace, forward refs, ProtectedString, '
+             'wrapped base64, alternative float spellings, CDATA/escapes/character references, comments, FF colour byte, optional CachedFaceId; rbx_xml::from_reader must return exactly that DOM. '
+             'non-trivial = document with >=2 instances; distinct = hash of the document'),
+    'floor': {'quick': 2000, 'thorough': 60000},
+    'assumptions': ['refxml.py / refattr.py written from the documents; Python\'s expat as the independent XML parser', 'BrickColor values are rendered as <int> in the reader direction'],
+    'run': _c05,
+    'claim': 'held on N documents per direction: rbx_xml output is well-formed, structurally conformant and means the DOM written; foreign conformant documents decode to the DOM they describe',
+    'note': 'trusted: refxml.py (35 recorded spec ambiguities), expat; the C02 generator for writer-direction reach',
+    'technique': 'independent XML parser + spec value codec over recorded outputs, and independent generator -> real reader differential monitor',
+}
